@@ -137,8 +137,15 @@ pub fn run(args: &Args) -> i32 {
 	let extra_bad: Arc<Mutex<Vec<Value>>> = Arc::new(Mutex::new(vec![]));
 	let files: Arc<Mutex<Vec<(String, String)>>> = Arc::new(Mutex::new(vec![]));
 	let stats = Arc::new(Mutex::new((0u64, 0u64, 0u64))); // children, restarts, unconfirmed
+	// circuit breaker: a decoder with this many confirmed aborts (hangs) has its remaining inputs skipped (and counted);
+	// the verdict is already negative, and every confirmation costs two process starts (a hang: 2 x the timeout)
+	let max_aborts = args.u64("max-aborts", 12) as u32;
+	let max_hangs = args.u64("max-hangs", 2) as u32;
+	let confirmed: Arc<Mutex<std::collections::BTreeMap<(String, &'static str), u32>>> = Arc::new(Mutex::new(Default::default()));
+	let skip: Arc<Mutex<std::collections::BTreeSet<String>>> = Arc::new(Mutex::new(Default::default()));
 	let mut hs = vec![];
 	for _ in 0..nworkers {
+		let (confirmed, skip) = (confirmed.clone(), skip.clone());
 		let (space, ca, next, extra_events, extra_bad, files, stats, outdir) = (
 			space.clone(),
 			ca.clone(),
@@ -161,7 +168,9 @@ pub fn run(args: &Args) -> i32 {
 				let bf = format!("{}/bad_{}.ndjson", outdir, from);
 				files.lock().unwrap().push((of.clone(), bf.clone()));
 				stats.lock().unwrap().0 += 1;
-				let child = spawn(&ca, &["--from".into(), from.to_string(), "--to".into(), to.to_string(), "--out".into(), of, "--bad".into(), bf]);
+				let skip_arg: String = skip.lock().unwrap().iter().cloned().collect::<Vec<_>>().join("|");
+				let child = spawn(&ca, &["--from".into(), from.to_string(), "--to".into(), to.to_string(), "--out".into(), of, "--bad".into(), bf,
+					"--skip".into(), format!("|{}", skip_arg)]);
 				match supervise(child, ca.timeout) {
 					Ended::Done => break,
 					ended => {
@@ -184,17 +193,26 @@ pub fn run(args: &Args) -> i32 {
 						let again = supervise(c2, ca.timeout);
 						let case = read_ndjson(&sb).into_iter().next().unwrap_or(json!({"i": idx}));
 						let c = space.materialize(idx);
-						let confirmed = match (&again, kind) {
+						let confirmed_now = match (&again, kind) {
 							(Ended::Hang(_), "hang") => Some(("hang", String::new(), None)),
 							(Ended::Died(_, how, err), "abort") => Some(("abort", how.clone(), alloc_refused(err))),
 							_ => None,
 						};
-						match confirmed {
+						match confirmed_now {
 							Some((out, how, refused)) => {
+								{
+									let name = space.targets[c.target].name.to_string();
+									let mut cf = confirmed.lock().unwrap();
+									let n = cf.entry((name.clone(), out)).or_insert(0);
+									*n += 1;
+									if (out == "abort" && *n >= max_aborts) || (out == "hang" && *n >= max_hangs) {
+										skip.lock().unwrap().insert(name);
+									}
+								}
 								let mut ev = extra_events.lock().unwrap();
 								ev.push(worker::begin_event(&space, idx, &c));
 								ev.push(json!({"k": "End", "i": idx, "out": out, "consumed": 0, "peak": worker::clamp(refused.unwrap_or(0)), "reads": 0,
-									"maxreq": worker::clamp(refused.unwrap_or(0)), "note": how, "alloc_refused": refused.map(|x| x.to_string()), "gen": c.origin["gen"]}));
+									"maxreq": worker::clamp(refused.unwrap_or(0)), "note": how, "alloc_refused": refused.map(|x| x.to_string()).unwrap_or_default(), "gen": c.origin["gen"]}));
 								extra_bad.lock().unwrap().push(case);
 							}
 							None => {
@@ -223,6 +241,7 @@ pub fn run(args: &Args) -> i32 {
 	let mut keep_ids: std::collections::BTreeSet<u64> = std::collections::BTreeSet::new();
 	let keep = args.u64("keep", 8);
 	let mut dropped = 0u64;
+	let mut skipped = 0u64;
 	// abort / hang events recorded by this process come first so that they are never dropped as repeats
 	{
 		let evs = extra_events.lock().unwrap().clone();
@@ -230,7 +249,7 @@ pub fn run(args: &Args) -> i32 {
 		while let Some(b) = it.next() {
 			if b["k"] == "Begin" {
 				if let Some(e) = it.next() {
-					let key = format!("{}|{}|{}", b["dec"], e["out"], e["alloc_refused"].is_null());
+					let key = format!("{}|{}|{}", b["dec"], e["out"], e["alloc_refused"].as_str().unwrap_or("").is_empty());
 					let n = kept.entry(key).or_insert(0u64);
 					*n += 1;
 					if *n <= keep {
@@ -250,7 +269,17 @@ pub fn run(args: &Args) -> i32 {
 	}
 	let mut bad_all: Vec<Value> = extra_bad.lock().unwrap().clone();
 	let fl = files.lock().unwrap().clone();
+	let mut hashes: Vec<u64> = vec![];
 	for (of, bf) in fl.iter() {
+		let ntf = format!("{}.nt", of);
+		if let Ok(b) = std::fs::read(&ntf) {
+			for ch in b.chunks_exact(8) {
+				let mut a = [0u8; 8];
+				a.copy_from_slice(ch);
+				hashes.push(u64::from_le_bytes(a));
+			}
+			let _ = std::fs::remove_file(&ntf);
+		}
 		if std::path::Path::new(of).exists() {
 			for e in read_ndjson(of) {
 				match e["k"].as_str() {
@@ -277,6 +306,7 @@ pub fn run(args: &Args) -> i32 {
 							}
 						}
 					}
+					Some("Skipped") => skipped += e["n"].as_u64().unwrap_or(0),
 					Some("SeedsFailed") => seeds_failed.extend(e["list"].as_array().cloned().unwrap_or_default()),
 					Some("Begin") => pending = Some(e),
 					Some("End") => {
@@ -314,6 +344,10 @@ pub fn run(args: &Args) -> i32 {
 			bad.put(e);
 		}
 	}
+	let nontrivial_calls = hashes.len();
+	hashes.sort_unstable();
+	hashes.dedup();
+	let distinct_nontrivial = hashes.len();
 	let nsum = sums.len();
 	for (_, s) in sums {
 		out.put(&s);
@@ -324,7 +358,7 @@ pub fn run(args: &Args) -> i32 {
 	println!(
 		"{}",
 		json!({"cases": total, "ops": space.ops.len(), "seeds": space.seeds.len(), "children": st.0, "restarts": st.1, "unconfirmed": st.2,
-			"individual_events": nind, "dropped_repeats": dropped, "summary_events": nsum, "seeds_failed": seeds_failed})
+			"individual_events": nind, "nontrivial_calls": nontrivial_calls, "distinct_nontrivial": distinct_nontrivial, "dropped_repeats": dropped, "skipped_after_breaker": skipped, "breaker_decoders": skip.lock().unwrap().iter().cloned().collect::<Vec<_>>(), "summary_events": nsum, "seeds_failed": seeds_failed})
 	);
 	0
 }
